@@ -413,14 +413,14 @@ def applyMut (m : Mut) (s : SDB) : SDB :=
 
 /-- operations inside one transaction: mutators, Snapshot, RevertToSnapshot. -/
 inductive TxOp
-  | mut (m : Mut)
+  | mutate (m : Mut)
   | snap
   | revert (id : Nat)
 
 /-- `none` = the Go code panics (revert to an id that is not live). -/
 def stepTx (op : TxOp) (s : SDB) : Option SDB :=
   match op with
-  | .mut m => some (applyMut m s)
+  | .mutate m => some (applyMut m s)
   | .snap => some (snapshot s).1
   | .revert id => revertTo id s
 
